@@ -3,7 +3,7 @@ import re
 
 LEN_CALLS = re.compile(
     r"(^|::)(BaseVector::len|Vec::<T, A>::len|<impl \[T\]>::len|VecDeque::<T, A>::len|"
-    r"ArrayBase::<S, D>::len|ArrayBase<S, D>>::len|Matrix::<T, R, C, S>::len|ExactSizeIterator::len)$")
+    r"ArrayBase::<S, D>::len|ArrayBase<S, D>>::len|Matrix::<T, R, C, S>::len|Matrix<T, R, C, S>>::len|ExactSizeIterator::len)$")
 SHAPE_CALLS = re.compile(r"(^|::)(BaseMatrix::shape|Matrix::<T, R, C, S>::shape|ArrayBase::<S, D>::dim)$")
 NROWS_CALLS = re.compile(r"(^|::)(nrows)$")
 NCOLS_CALLS = re.compile(r"(^|::)(ncols)$")
